@@ -45,7 +45,7 @@ func runSolve(b block) {
 		case "build":
 			resNames = fs[1:]
 		case "solve":
-			kv := map[string]int{"iterations": 50, "duration_ms": 2000, "runs": 1, "starts": 1, "det": 1, "repeat": 1, "snap": 0, "cancel_ms": -1, "jitter": 0, "slow_us": 0, "observer": 0}
+			kv := map[string]int{"iterations": 50, "duration_ms": 2000, "runs": 1, "starts": 1, "det": 1, "repeat": 1, "snap": 0, "cancel_ms": -1, "jitter": 0, "slow_us": 0, "observer": 0, "lag_us": 0}
 			for _, a := range fs[1:] {
 				p := strings.SplitN(a, "=", 2)
 				v, _ := strconv.Atoi(p[1])
@@ -159,6 +159,10 @@ func solveOnce(id string, input schema.Input, opts factory.Options, resNames []s
 			}
 			if si.Solution == nil {
 				continue
+			}
+			if kv["lag_us"] > 0 && kv["_rep"]%2 == 1 {
+				// a consumer that falls behind (odd repetitions only): what is delivered must not depend on its pace
+				time.Sleep(time.Duration(kv["lag_us"]) * time.Microsecond)
 			}
 			fmt.Fprintf(out, "%s sol %d score %s\n", id, n, num(si.Solution.Score()))
 			if kv["snap"] == 1 {
